@@ -98,6 +98,16 @@ class GameCoordinator:
     """
     Class for creation, and management of agent interactions in AI Dojo.
     """
+    # parameters which must be present in an action of given type
+    REQUIRED_PARAMETERS = {
+        ActionType.JoinGame: {"agent_info"},
+        ActionType.ScanNetwork: {"source_host", "target_network"},
+        ActionType.FindServices: {"source_host", "target_host"},
+        ActionType.FindData: {"source_host", "target_host"},
+        ActionType.ExploitService: {"source_host", "target_host", "target_service"},
+        ActionType.ExfiltrateData: {"source_host", "target_host", "data"},
+        ActionType.BlockIP: {"source_host", "target_host", "blocked_host"},
+    }
     def __init__(self, game_host: str, game_port: int, service_host:str, service_port:int, allowed_roles=["Attacker", "Defender", "Benign"], task_config_file:str=None) -> None:
         self.host = game_host
         self.port = game_port
@@ -379,6 +389,11 @@ class GameCoordinator:
                     )
                     # the message can't be processed - inform the agent and wait for the next message
                     await self._send_bad_request(agent_addr, f"Invalid message: {e}")
+                    continue
+                missing_parameters = self.REQUIRED_PARAMETERS.get(action.type, set()) - action.parameters.keys()
+                if missing_parameters:
+                    self.logger.error(f"Missing parameters {missing_parameters} in {action}")
+                    await self._send_bad_request(agent_addr, f"Missing parameters: {sorted(missing_parameters)}")
                     continue
                 match action.type:  # process action based on its type
                     case ActionType.JoinGame:
